@@ -78,7 +78,7 @@ fn main() {
             }
         };
         let check = v["check"].as_str().unwrap_or("").to_string();
-        let verdict = if check.starts_with("fuzz") {
+        let verdict = if check.starts_with("fuzz") || check.starts_with("miri:") {
             fuzzglue::replay(&id, &check, &v["case"]).unwrap_or_else(|| {
                 eprintln!("INFRA: malformed fuzz replay file {path}");
                 std::process::exit(2);
